@@ -86,7 +86,43 @@ def _empty() -> z3.ReRef:
     return z3.Re(z3.StringVal(""))
 
 
-def seq_to_z3(items: list[Any]) -> z3.ReRef:
+SIGMA = ("sigma*", None)  # internal item: any remainder (appended to look-ahead bodies so that nested anchors see it)
+
+
+def _word_status(item: Any) -> str | None:
+    """'word' / 'nonword' when every character the item can end with is (not) a word character, else None."""
+    op, arg = item
+    if op == sre_c.LITERAL:
+        c = chr(arg)
+        return "word" if (c.isascii() and (c.isalnum() or c == "_")) else "nonword"
+    if op == sre_c.IN:
+        kinds = set()
+        for o, a in arg:
+            if o == sre_c.NEGATE:
+                return None
+            if o == sre_c.LITERAL:
+                kinds.add(_word_status((sre_c.LITERAL, a)))
+            elif o == sre_c.RANGE:
+                lo, hi = chr(a[0]), chr(a[1])
+                kinds.add("word" if (lo.isalnum() and hi.isalnum() and lo.isascii() and hi.isascii()) else None)
+            elif o == sre_c.CATEGORY:
+                kinds.add({sre_c.CATEGORY_DIGIT: "word", sre_c.CATEGORY_WORD: "word", sre_c.CATEGORY_SPACE: "nonword"}.get(a))
+            else:
+                return None
+        return kinds.pop() if len(kinds) == 1 else None
+    if op in (sre_c.MAX_REPEAT, sre_c.MIN_REPEAT):
+        lo, _hi, sub = arg
+        sub = list(sub)
+        if lo >= 1 and len(sub) == 1:
+            return _word_status(sub[0])
+    return None
+
+
+def _word_char() -> z3.ReRef:
+    return z3.Union(_rng("a", "z"), _rng("A", "Z"), _rng("0", "9"), _ch(ord("_")))
+
+
+def seq_to_z3(items: list[Any], prev: Any = None) -> z3.ReRef:
     """Language of a sequence of sre items *followed by nothing* (full match)."""
     if not items:
         return _empty()
@@ -96,18 +132,28 @@ def seq_to_z3(items: list[Any]) -> z3.ReRef:
         direction, sub = arg
         if direction != 1:
             raise NotImplementedError("look-behind")
-        look = z3.Concat(seq_to_z3(list(sub)), sigma_star())
-        return z3.Intersect(seq_to_z3(rest), z3.Complement(look))
+        look = seq_to_z3(list(sub) + [SIGMA], prev)
+        return z3.Intersect(seq_to_z3(rest, prev), z3.Complement(look))
     if op == sre_c.ASSERT:
         direction, sub = arg
         if direction != 1:
             raise NotImplementedError("look-behind")
-        look = z3.Concat(seq_to_z3(list(sub)), sigma_star())
-        return z3.Intersect(seq_to_z3(rest), look)
-    head = item_to_z3(op, arg)
+        look = seq_to_z3(list(sub) + [SIGMA], prev)
+        return z3.Intersect(seq_to_z3(rest, prev), look)
+    if op == sre_c.AT and arg == sre_c.AT_BOUNDARY:
+        # a word boundary after an item that always ends with a word character is "no word character follows"
+        # (after a non-word character: "a word character follows"); other positions are not translated
+        status = _word_status(prev) if prev is not None else None
+        follows_word = z3.Concat(_word_char(), sigma_star())
+        if status == "word":
+            return z3.Intersect(seq_to_z3(rest, prev), z3.Complement(follows_word))
+        if status == "nonword":
+            return z3.Intersect(seq_to_z3(rest, prev), follows_word)
+        raise NotImplementedError("word boundary after an item of mixed or unknown character kind")
+    head = sigma_star() if (op, arg) == SIGMA else item_to_z3(op, arg)
     if not rest:
         return head
-    return z3.Concat(head, seq_to_z3(rest))
+    return z3.Concat(head, seq_to_z3(rest, (op, arg)))
 
 
 def _contains_lookahead(items: list[Any]) -> bool:
@@ -236,7 +282,7 @@ def decomposition(tr: Translated, line: z3.SeqRef, tag: str) -> tuple[list[z3.Bo
     for (op, arg), idx in pending_look:
         direction, sub = arg
         remainder = z3.Concat(*allparts[idx:]) if len(allparts[idx:]) > 1 else allparts[idx]
-        look = z3.Concat(seq_to_z3(list(sub)), sigma_star())
+        look = seq_to_z3(list(sub) + [SIGMA])
         member = z3.InRe(remainder, look)
         cons.append(z3.Not(member) if op == sre_c.ASSERT_NOT else member)
     return cons, groups
@@ -253,6 +299,8 @@ def selftest() -> list[str]:
         re.compile(r"^\d+\s+([\w\.-]+)\s*(?!0 B)(\d+e?[\-\+]?[\.\d]* \w+)\s+\d{4}-\d\d-\d\d", flags=re.MULTILINE),
         re.compile(r"ab?c{2,3}[^x-z]\S$"),
         re.compile(r"^(a|bc)+(?=d)\w"),
+        re.compile(r"^x(?!0\b)[0-9.]+ \w+$"),
+        re.compile(r"^a \bc?d$"),
     ]
     for pat in pats:
         tr = Translated(pat)
